@@ -83,7 +83,7 @@ def gen_spec(rng, solver, df, pen, seed, coords):
             knobs["max_epochs"] = 11       # smaller budgets raise UnboundLocalError (tracked under C17/C13)
     spec = dict(check="C01", seed=seed, coords=coords, solver=solver, datafit=df, penalty=pen, storage=storage,
                 fit_intercept=icpt, strategy=strategy, n=n, p=p,
-                xkind=str(rng.choice(["gauss", "ar", "scaled", "shifted"])), rho=float(rng.choice([0.5, 0.95])),
+                xkind=str(rng.choice(["gauss", "ar", "scaled", "shifted", "centered"])), rho=float(rng.choice([0.5, 0.95])),
                 alpha_frac=float(rng.choice([0.01, 0.1, 0.5, 1.2])),
                 positive=bool(rng.integers(0, 2)) if pen in K.POSFLAG + ["WeightedGroupL2"] else False,
                 zero_weights=bool(rng.integers(0, 2)), knobs=knobs,
